@@ -169,9 +169,9 @@ def h_square_unique_retry(ctx, obj):
     """unique=True through its retry path: the first batch contains too few
     distinct rows, the repeated attempt enough (draws scripted)."""
     Y, W = quasi_diag_tt(ctx, 2, 2)
-    # m = 2, m_fact = 1: first batch of 2 samples (2 draws each) gives (0,0) twice ->
-    # retry with m_fact = 2: 4 samples (0,0),(1,1),(0,0),(1,1)
-    script = [0, 0, 0, 0] + [0, 1, 0, 1, 0, 1, 0, 1]
+    # m = 2, m_fact = 1: first batch of 2 samples gives (0,0) twice -> retry with
+    # m_fact = 2: 4 samples (0,0),(0,1),(0,0),(0,1) (four first-mode draws, then four second-mode draws)
+    script = [0, 0, 0, 0] + [0, 0, 0, 0] + [0, 1, 0, 1] + [1, 1, 1, 1, 1, 1, 1, 1] * 4
     g = _gen(ctx, 'retry', script=script)
     I = teneva.sample_square(Y, 2, unique=True, seed=g, m_fact=1, max_rep=3)
     rows = [tuple(int(x) for x in row) for row in I]
